@@ -297,6 +297,28 @@ def context_rule(chk):
                     node=fi.node,
                     stmt="context %s" % sorted(ctx),
                 )
+        # the monitor calls the payload itself; handing it on to a spawn primitive moves it (or its synchronous part)
+        # to that primitive's context
+        for mname in facts["monitors"]:
+            fi = prog.lookup_method(cls, mname)
+            params = set(fi.params())
+            for caller, node, prim, ctx, _tg in g.spawn_sites:
+                if caller is not fi:
+                    continue
+                _p, _c, carried = g._primitive(fi, node)
+                for a in carried or []:
+                    inner = a.value if isinstance(a, ast.Starred) else a
+                    names = {x.id for x in ast.walk(inner) if isinstance(x, ast.Name)} & params
+                    called = isinstance(inner, ast.Call) and isinstance(inner.func, ast.Name) and inner.func.id in params
+                    if names and not called and {ctx} != want[fl]:
+                        chk.count()
+                        chk.bad(
+                            rule,
+                            fi.qual,
+                            "the payload is handed to %s, which runs it in context %s instead of %s: %s" % (prim.split(":")[-1].replace("ext:", ""), ctx, sorted(want[fl]), "the synchronous part of a coroutine payload then executes on another thread, in parallel with the payloads of its flavour" if fl != "ext:threading" else "thread payloads would block a coroutine thread"),
+                            node=node,
+                            stmt="payload handed to %s" % prim,
+                        )
         # one Thread per registered thread payload
         if fl == "ext:threading":
             reg = prog.lookup_method(cls, "register_payload")
